@@ -198,6 +198,10 @@ func c08Cfg(r *rand.Rand) (rate, burst int64) {
 		burst = int64(8 + r.Intn(50))
 		return
 	}
+	if r.Intn(12) == 0 {
+		// smallest bucket: every granted request takes exactly the capacity
+		return int64(1 + r.Intn(2)), 1
+	}
 	rate = int64(1 + r.Intn(40))
 	lo := (rate + 1) / 2 // smallest burst with 2*burst >= rate
 	switch r.Intn(8) {
@@ -231,8 +235,13 @@ func c08PickN(r *rand.Rand, burst int64) int64 {
 		return 1
 	case x < 38:
 		return 0
-	case x < 48:
+	case x < 44:
 		return 1 + burst/2
+	case x < 48:
+		if burst > 1 {
+			return burst - 1
+		}
+		return 1
 	case x < 56:
 		return burst
 	case x < 62:
@@ -345,11 +354,48 @@ func c08WindowBound(adm []c08Adm, rate, burst int64) (bad bool, i, j int, sum, b
 	return false, 0, 0, 0, 0
 }
 
+// c08Abandoned counts scenarios given up without a verdict; a test whose
+// scenarios are mostly abandoned has observed nothing and must not pass.
+var c08Abandoned atomic.Int64
+
+func c08TooManyAbandoned(m *vk.M, before int64, cases int) {
+	if a := c08Abandoned.Load() - before; a > 2 && a*10 > int64(cases) {
+		m.Inconclusive("%d of %d scenarios were abandoned without a verdict (script executions != calls)", a, cases)
+	}
+}
+
+// c08Unscripted classifies the answer of a call for which the server executed
+// e != 1 scripts, on a server that is up and was never down (no fault injected,
+// fresh address, no cancelled context). With healthy Redis the statement's bucket
+// is the only bucket, whoever computed the answer:
+//   - granted although the bucket cannot cover n           -> "over"  (violation)
+//   - denied, n not available                               -> "consistent-denial": nothing was consumed (e.g. a
+//     request above the capacity refused without asking Redis); the history continues
+//   - denied although n is available, in well under the 3 s a client needs to
+//     give up on Redis, and no earlier unscripted grant could have drained an
+//     in-process bucket                                     -> "under" (violation)
+//   - anything else (client retry e>1, slow call, granted with tokens available) -> "abandon"
+func c08Unscripted(e int64, wall time.Duration, got bool, n, avail int64, priorUnscriptedGrants int) string {
+	if e != 0 || wall >= c08FastCall {
+		return "abandon"
+	}
+	switch {
+	case got && n > avail:
+		return "over"
+	case !got && n > avail:
+		return "consistent-denial"
+	case !got && priorUnscriptedGrants == 0:
+		return "under"
+	}
+	return "abandon"
+}
+
 func runC08TokenSeq(m *vk.M, idx int, sc c08TScenario, srv *c08Srv, store *redis.Redis) {
 	desc := func() string { return fmt.Sprintf("case=%d;%s", idx, vk.JSON(sc)) }
 	lims := make([]*TokenLimiter, len(sc.Lims))
 	refs := make([]*c08Bucket, len(sc.Lims))
 	adms := make([][]c08Adm, len(sc.Lims))
+	unscriptedGrants := make([]int, len(sc.Lims))
 	for i, l := range sc.Lims {
 		lims[i] = NewTokenLimiter(int(l.Rate), int(l.Burst), store, fmt.Sprintf("c08s%d-%d", idx, i))
 		refs[i] = &c08Bucket{rate: l.Rate, burst: l.Burst}
@@ -369,19 +415,40 @@ func runC08TokenSeq(m *vk.M, idx int, sc c08TScenario, srv *c08Srv, store *redis
 		class := c08Class(ref, sec, st.N)
 		lastSec := ref.last
 		e0 := srv.evals.Load()
+		t0 := time.Now()
 		got := lims[st.L].AllowN(clock, int(st.N))
+		wall := time.Since(t0)
 		e := srv.evals.Load() - e0
 		m.Count("token.allowN", 1)
-		if e != 1 {
-			// the answer did not come from exactly one script execution (fallback
-			// without a fault, or a client retry): nothing to compare it with here;
-			// the outage test decides whether the limiter comes back to Redis
-			m.Count(fmt.Sprintf("token.abandoned-evals=%d", e), 1)
-			m.Note("case %d step %d: AllowN caused %d EVALs on a healthy server; scenario abandoned", idx, si, e)
-			return
-		}
 		ref.refill(sec)
 		avail := ref.tokens
+		if e != 1 {
+			// no script, or more than one, ran for this call on a server that is up and
+			// was never down (see c08Unscripted)
+			switch c08Unscripted(e, wall, got, st.N, avail, unscriptedGrants[st.L]) {
+			case "consistent-denial":
+				m.Count("token.denied-without-script(n>available)", 1)
+				obs.WriteByte('x')
+				continue
+			case "over":
+				m.Violate("C08:token:granted-over-quota-without-redis-command:"+class, desc(),
+					"step %d limiter %d (rate %d, burst %d): AllowN(sec=%d, n=%d) was granted without any script execution although the server is up and was never down; the bucket holds %d tokens at that second",
+					si, st.L, ref.rate, ref.burst, sec, st.N, avail)
+				return
+			case "under":
+				m.Violate("C08:token:denied-without-redis-command:"+class, desc(),
+					"step %d limiter %d (rate %d, burst %d): AllowN(sec=%d, n=%d) was denied in %v without any script execution although the server is up and was never down and the bucket holds %d tokens at that second (previous call at sec %d)",
+					si, st.L, ref.rate, ref.burst, sec, st.N, wall.Round(time.Microsecond), avail, lastSec)
+				return
+			}
+			if got {
+				unscriptedGrants[st.L]++
+			}
+			c08Abandoned.Add(1)
+			m.Count(fmt.Sprintf("token.abandoned-evals=%d", e), 1)
+			m.Note("case %d step %d: AllowN caused %d EVALs in %v on a healthy server (granted=%v, n=%d, bucket %d); scenario abandoned", idx, si, e, wall, got, st.N, avail)
+			return
+		}
 		want := ref.take(sec, st.N)
 		m.Count("token.class."+class, 1)
 		if got {
@@ -441,6 +508,7 @@ func c08GenTokenSeq(r *rand.Rand, steps int) c08TScenario {
 }
 
 func TestVerifC08TokenSeq(t *testing.T) {
+	abandoned0 := c08Abandoned.Load()
 	m := vk.New(t, "C08", "token limiter on healthy Redis: every AllowN(now,n) compared with the statement's integer bucket; window bound over every window; caller clock and miniredis advanced in lock-step")
 	defer m.Done()
 	defer c08Wall(m, time.Now())
@@ -483,6 +551,7 @@ func TestVerifC08TokenSeq(t *testing.T) {
 		}(w)
 	}
 	wg.Wait()
+	c08TooManyAbandoned(m, abandoned0, n)
 }
 
 // ---------------------------------------------------------------------------
@@ -569,6 +638,7 @@ func runC08Sustained(m *vk.M, idx int, sc c08SScenario) {
 	clock := time.Unix(sc.Base, 0)
 	var adm []c08Adm
 	grants, denies, run, maxRun := 0, 0, 0, 0
+	unscriptedGrants := 0
 	cancelled, cancel := context.WithCancel(context.Background())
 	cancel()
 	expired, cancel2 := context.WithDeadline(context.Background(), time.Now().Add(-time.Hour))
@@ -613,6 +683,26 @@ func runC08Sustained(m *vk.M, idx int, sc c08SScenario) {
 					si, sc.Rate, sc.Burst, sc.Lims, sec, st.N, wall.Round(time.Microsecond), avail, grants, denies, run)
 				return
 			}
+			switch c08Unscripted(e, wall, got, st.N, avail, unscriptedGrants) {
+			case "consistent-denial":
+				if !c08Misrouted(key) {
+					m.Count("sustained.denied-without-script(n>available)", 1)
+					denies++
+					run++
+					continue
+				}
+			case "under":
+				if !c08Misrouted(key) && how != "cancelled" && how != "expired" {
+					m.Violate("C08:token:sustained:denied-without-redis-command:"+class, desc,
+						"step %d (rate %d, burst %d): AllowN(sec=%d, n=%d) was denied in %v without any script execution although the server is up and was never down and the bucket holds %d tokens",
+						si, sc.Rate, sc.Burst, sec, st.N, wall.Round(time.Microsecond), avail)
+					return
+				}
+			}
+			if got {
+				unscriptedGrants++
+			}
+			c08Abandoned.Add(1)
 			m.Count(fmt.Sprintf("sustained.abandoned-evals=%d", e), 1)
 			m.Note("case %d step %d: AllowN caused %d EVALs in %v on a healthy server (granted=%v, bucket %d, n=%d); scenario abandoned", idx, si, e, wall, got, avail, st.N)
 			return
@@ -651,6 +741,7 @@ func runC08Sustained(m *vk.M, idx int, sc c08SScenario) {
 }
 
 func TestVerifC08TokenSustained(t *testing.T) {
+	abandoned0 := c08Abandoned.Load()
 	m := vk.New(t, "C08", "token limiter, healthy Redis, sustained over-quota traffic: hundreds of consecutive AllowN within the same caller second(s) after the bucket is drained, 1-3 limiters on one key, compared call by call with the reference bucket; a grant without a script execution is judged against the same bucket")
 	defer m.Done()
 	defer c08Wall(m, time.Now())
@@ -679,6 +770,7 @@ func TestVerifC08TokenSustained(t *testing.T) {
 		}()
 	}
 	wg.Wait()
+	c08TooManyAbandoned(m, abandoned0, n)
 }
 
 // Allow() and AllowCtx() take the time from time.Now: no virtual clock. One-sided
@@ -872,6 +964,9 @@ type c08Outage struct {
 }
 
 type c08OScenario struct {
+	// Flap: outages follow each other with (almost) no caller time in between and
+	// no refill period after the return: k outages must not admit k x burst
+	Flap    bool        `json:"flap,omitempty"`
 	Rate    int64       `json:"rate"`
 	Burst   int64       `json:"burst"`
 	Base    int64       `json:"base_unix"`
@@ -882,6 +977,26 @@ type c08OScenario struct {
 
 func c08GenOutage(r *rand.Rand) c08OScenario {
 	rate, burst := c08Cfg(r)
+	if r.Intn(3) == 0 {
+		sc := c08OScenario{Flap: true, Rate: rate, Burst: burst, Base: 1_600_000_000 + int64(r.Intn(100_000_000))}
+		sc.Up = []c08Call{{N: 1}}
+		for o, no := 0, 2+r.Intn(3); o < no; o++ {
+			f := []string{"error", "error", "close", "garbage"}[r.Intn(4)]
+			var down []c08Call
+			for i, k := 0, int(burst)+3+r.Intn(8); i < k; i++ {
+				c := c08Call{N: 1}
+				if i == 0 && o > 0 && r.Intn(3) == 0 {
+					c.Adv = 1000 // one second of refill between two outages, never a full refill period
+				}
+				if r.Intn(10) == 0 {
+					c.N = c08PickN(r, burst)
+				}
+				down = append(down, c)
+			}
+			sc.Outages = append(sc.Outages, c08Outage{Fault: f, Down: down})
+		}
+		return sc
+	}
 	sc := c08OScenario{Rate: rate, Burst: burst, Base: 1_600_000_000 + int64(r.Intn(100_000_000))}
 	subsec := r.Intn(4) == 0
 	if subsec {
@@ -911,6 +1026,7 @@ func c08GenOutage(r *rand.Rand) c08OScenario {
 // c08Seg tracks one fallback segment: the set of bucket levels consistent with
 // the answers so far, and the admitted tokens for the sub-window bound.
 type c08Seg struct {
+	used   bool // the fallback answered at least once in this scenario
 	active bool
 	lo, hi float64 // possible level just after the last call
 	last   time.Time
@@ -983,7 +1099,13 @@ func (x *c08ORun) rescue(n int64, granted bool, where string) bool {
 	s := &x.seg
 	rate, burst := float64(x.sc.Rate), float64(x.sc.Burst)
 	if !s.active {
-		*s = c08Seg{active: true, lo: 0, hi: burst, last: x.clock}
+		// "an in-process bucket": one bucket for the life of the limiter. Its level is
+		// unknown ([0,burst]) only before its first use; a later outage continues from
+		// what the earlier ones left, refilled for the caller time in between.
+		if !s.used {
+			*s = c08Seg{used: true, lo: 0, hi: burst, last: x.clock}
+		}
+		s.active = true
 		x.m.Count("outage.segments", 1)
 	}
 	dt := x.clock.Sub(s.last).Seconds()
@@ -1033,7 +1155,7 @@ func (x *c08ORun) rescue(n int64, granted bool, where string) bool {
 			sum += s.adm[i]
 			bound := x.sc.Burst + (x.sc.Rate*int64(x.clock.Sub(s.ts[i]))+20_000_000)/1_000_000_000
 			if sum > bound {
-				x.m.Violate("C08:outage:segment-window-bound:"+x.fault, x.desc, "%s: fallback admitted %d tokens within %v of caller time, bound burst+rate*t = %d (rate %d, burst %d)",
+				x.m.Violate("C08:outage:fallback-window-bound:"+x.fault, x.desc, "%s: the fallback admitted %d tokens within %v of caller time (all outages of this limiter taken together), bound burst+rate*t = %d (rate %d, burst %d)",
 					where, sum, x.clock.Sub(s.ts[i]), bound, x.sc.Rate, x.sc.Burst)
 				return false
 			}
@@ -1041,7 +1163,11 @@ func (x *c08ORun) rescue(n int64, granted bool, where string) bool {
 		return true
 	}
 	// denied: the level was below n
-	if x.twoSided() && n <= x.sc.Burst && s.lo >= fn+c08Eps {
+	// whole-second caller times: the in-process bucket's level is never below the
+	// ideal integer level (Every(1s/rate) truncates the interval, i.e. refills a
+	// hair faster; checked numerically for rate <= 40), so the boundary n == level
+	// is decidable
+	if x.twoSided() && n <= x.sc.Burst && s.lo >= fn-1e-6 {
 		x.m.Violate("C08:outage:fallback-under-admission:"+x.fault, x.desc,
 			"%s: fallback denied n=%d although every bucket of rate %d / burst %d consistent with this outage segment holds at least %.3f tokens at caller time %dms",
 			where, n, x.sc.Rate, x.sc.Burst, s.lo, x.clock.UnixMilli())
@@ -1230,6 +1356,9 @@ func runC08Outage(m *vk.M, idx int, sc c08OScenario) {
 			return
 		}
 		returned++
+		if sc.Flap {
+			continue // straight into the next outage: the fallback bucket has had no time to refill
+		}
 		x.resync()
 		if !x.up(o.Up, "after-return") {
 			return
